@@ -142,8 +142,8 @@ def analyzer_cases(draw, tier="quick", histories=False):
             if fps and draw(st.integers(0, 2)) == 0:
                 g = fps[draw(st.integers(0, len(fps) - 1))]
                 g["p"] = [draw(st.sampled_from([-1.0, 1.0])) * (grid_x + draw(GEN.fl(1.0, 40.0))), g["p"][1], g["p"][2]]
-    if not histories and d["task"] in ("detection", "fp_validation") and draw(st.integers(0, 2)) == 0:
-        # detection / FP validation need no instance ids: ground truths without ids or with ids shared between annotations; rows can then
+    if not histories and d["task"] == "detection" and draw(st.integers(0, 1)) == 0:
+        # detection needs no instance ids (FP-validation cases keep unique ids: their object-status tallies are keyed by uuid): ground truths without ids or with ids shared between annotations; rows can then
         # not be told apart by uuid, so only the row / status accounting of such a case is checked (see _body)
         how = draw(st.sampled_from(["none", "shared"]))
         d["mgr"]["uuids"] = None
@@ -979,7 +979,7 @@ def _object_status(ctx, scenes, get_object_status):
 # ------------------------------------------------------------------------------------------------
 
 
-@CHECK.given("tables", lambda tier: analyzer_cases(tier), quick=100, thorough=3200)
+@CHECK.given("tables", lambda tier: analyzer_cases(tier), quick=140, thorough=3200)
 def tables(ctx, d):
     _body(ctx, d)
 
